@@ -475,6 +475,9 @@ struct pmis {
         std::vector<MPI_Request> send_cnt_req(Sp.recv.nbr.size());
         std::vector<MPI_Request> send_pts_req(Sp.recv.nbr.size());
 
+        // Send buffers for the counts have to stay alive until MPI_Wait:
+        std::vector<int> send_cnt(Sp.recv.nbr.size());
+
         ptrdiff_t naggr = 0;
 
         std::vector<ptrdiff_t> nbr;
@@ -584,8 +587,8 @@ struct pmis {
             }
 
             for(size_t i = 0; i < Sp.recv.nbr.size(); ++i) {
-                int npts = send_pts[i].size();
-                MPI_Isend(&npts, 1, MPI_INT, Sp.recv.nbr[i], tag_exc_cnt, comm, &send_cnt_req[i]);
+                int npts = send_cnt[i] = send_pts[i].size();
+                MPI_Isend(&send_cnt[i], 1, MPI_INT, Sp.recv.nbr[i], tag_exc_cnt, comm, &send_cnt_req[i]);
 
                 if (!npts) continue;
                 MPI_Isend(&send_pts[i][0], npts, datatype<ptrdiff_t>(), Sp.recv.nbr[i], tag_exc_pts, comm, &send_pts_req[i]);
@@ -671,8 +674,8 @@ struct pmis {
             }
 
             for(size_t i = 0; i < Sp.recv.nbr.size(); ++i) {
-                int npts = send_pts[i].size();
-                MPI_Isend(&npts, 1, MPI_INT, Sp.recv.nbr[i], tag_exc_cnt, comm, &send_cnt_req[i]);
+                int npts = send_cnt[i] = send_pts[i].size();
+                MPI_Isend(&send_cnt[i], 1, MPI_INT, Sp.recv.nbr[i], tag_exc_cnt, comm, &send_cnt_req[i]);
 
                 if (!npts) continue;
                 MPI_Isend(&send_pts[i][0], npts, datatype<ptrdiff_t>(), Sp.recv.nbr[i], tag_exc_pts, comm, &send_pts_req[i]);
